@@ -29,7 +29,7 @@ def attr_decl(name, d, variant):
     attributeFormDefault="qualified", so x carries an explicit form="unqualified" and y relies on the default."""
     if d["use"] == "none":
         return ""
-    qdef = variant >= 4
+    qdef = variant % 8 >= 4
     base = variant % 4
     vc = {"none": "", "fixed": ' fixed="1"', "default": ' default="1"'}[d["vc"]]
     use = "" if d["use"] == "optional" and base % 2 else f' use="{d["use"]}"'
@@ -57,19 +57,39 @@ def schema_xsd(d0, dT, w, variant):
         groups = (f'<xs:attributeGroup name="g2">{aT}{wild}</xs:attributeGroup>'
                   f'<xs:attributeGroup name="g1">{a0}<xs:attributeGroup ref="t:g2"/></xs:attributeGroup>')
         body = '<xs:attributeGroup ref="t:g1"/>'
-    afd = ' attributeFormDefault="qualified"' if variant >= 4 else ""
+    afd = ' attributeFormDefault="qualified"' if variant % 8 >= 4 else ""
+    if variant >= 8:
+        # the same declarations as a RESTRICTION of a base type that has nothing but the widest wildcard (##any, skip):
+        # the uses and the wildcard of the restriction are the effective ones (spec/AttrRestriction.tla, Eff)
+        ct = ('<xs:complexType name="B"><xs:anyAttribute namespace="##any" processContents="skip"/></xs:complexType>'
+              f'<xs:complexType name="CT"><xs:complexContent><xs:restriction base="t:B">{body}</xs:restriction>'
+              '</xs:complexContent></xs:complexType>')
+    else:
+        ct = f'<xs:complexType name="CT">{body}</xs:complexType>'
     return (f'<xs:schema xmlns:xs="{cm.XS}" targetNamespace="urn:T" xmlns:t="urn:T" '
             f'elementFormDefault="qualified"{afd}><xs:import namespace="urn:A"/>'
-            f'<xs:attribute name="y" type="xs:integer"/>{groups}'
-            f'<xs:element name="e"><xs:complexType>{body}</xs:complexType></xs:element></xs:schema>')
+            f'<xs:attribute name="y" type="xs:integer"/>{groups}{ct}'
+            f'<xs:element name="e" type="t:CT"/><xs:element name="u" type="xs:anyType"/><xs:element name="v"/>'
+            f'</xs:schema>')
 
 
-def instance_xml(inst):
+def instance_xml(inst, mode="e"):
+    """mode: "e" the element with the declarations; "u-complex" / "v-complex": an element declared xs:anyType / without
+    a type, retyped to that complex type by xsi:type; "u-simple" / "v-simple": retyped to xs:int; "u-any": as declared."""
     at = ""
     for n, attr in (("n0", "x"), ("nT", "t:y"), ("nA", "a:x"), ("nF", "f:x"), ("nU", "t:u")):
         if inst[n] != "absent":
             at += f' {attr}="{VAL[inst[n]]}"'
-    return f'<t:e xmlns:t="urn:T" xmlns:a="urn:A" xmlns:f="urn:F"{at}/>'
+    ns = 'xmlns:t="urn:T" xmlns:a="urn:A" xmlns:f="urn:F"'
+    if mode == "e":
+        return f'<t:e {ns}{at}/>'
+    xsi = f'xmlns:xsi="http://www.w3.org/2001/XMLSchema-instance" xmlns:xs="{cm.XS}"'
+    name = mode[0]
+    if mode.endswith("-complex"):
+        return f'<t:{name} {ns} {xsi} xsi:type="t:CT"{at}/>'
+    if mode.endswith("-simple"):
+        return f'<t:{name} {ns} {xsi} xsi:type="xs:int"{at}>5</t:{name}>'
+    return f'<t:{name} {ns}{at}/>'
 
 
 KEY = {"n0": "@x", "nT": "@t:y", "nA": "@a:x", "nF": "@f:x", "nU": "@t:u"}
@@ -138,6 +158,26 @@ def judge(job):
                 out.append((ver, rec, f"is_valid={got}, spec says {rec['valid']}",
                             "accepts-invalid" if got else "rejects-valid"))
                 continue
+            # the governing type decides: xsi:type to the same complex type / to a simple type, xs:anyType itself
+            stop = False
+            for mode, want in (("u-complex", rec["valid"]), ("v-complex", rec["valid"]),
+                               ("u-simple", rec["vsimple"]), ("v-simple", rec["vsimple"]), ("u-any", rec["vany"])):
+                xm = instance_xml(rec["inst"], mode)
+                n += 1
+                try:
+                    gm = s.is_valid(xm)
+                    em = [] if gm else list(s.iter_errors(xm))
+                except Exception as e:      # noqa: BLE001
+                    out.append((ver, rec, f"{mode}: raised {type(e).__name__}: {e}"[:200], "raise"))
+                    stop = True
+                    break
+                if gm != want or (not gm and not em):
+                    out.append((ver, rec, f"{mode}: is_valid={gm}, spec says {want}  [{xm}]",
+                                ("accepts-invalid" if gm else "rejects-valid") if mode.endswith("complex") else "governing"))
+                    stop = True
+                    break
+            if stop:
+                continue
             if not got:
                 continue
             prohibited = {KEY[n] for n, d in (("n0", d0), ("nT", dT)) if d["use"] == "prohibited"}
@@ -167,7 +207,7 @@ def run(ctx: Ctx):
     by = collections.defaultdict(list)
     for rec in r.json_records():
         by[json.dumps([rec["d0"], rec["dT"], rec["w"]], sort_keys=True)].append(rec)
-    jobs = [(tuple(json.loads(k)), recs, i % 8) for i, (k, recs) in enumerate(sorted(by.items()))]
+    jobs = [(tuple(json.loads(k)), recs, i % 16) for i, (k, recs) in enumerate(sorted(by.items()))]
     res = ctx.pmap(judge, jobs)
     total = 0
     for ((d0, dT, w), recs, variant), (bad, n) in zip(jobs, res):
@@ -188,9 +228,9 @@ def run(ctx: Ctx):
                 "none, fixed, default) x wildcard (none or 4 constraints x strict/lax/skip) x attribute "
                 "set over {unqualified, target, declared-foreign, unknown} x value classes, as "
                 "enumerated by TLC from spec/Attributes.tla; rendering variant rotates with the "
-                "declaration index (inline, global ref, attribute group, nested groups; each with and without attributeFormDefault=qualified + explicit form=unqualified); both classes")
+                "declaration index (inline, global ref, attribute group, nested groups; each with and without attributeFormDefault=qualified + explicit form=unqualified; each directly or as a restriction of a base type with the widest wildcard); every attribute set also on an element declared xs:anyType / without type that xsi:type retypes to that complex type or to xs:int, and on xs:anyType itself; both classes")
     ctx.assumptions += ["all attributes are xs:integer; value constraints are '1'; '01' is the same "
-                        "value in another lexical form", "xsi:* attributes are not in the universe"]
+                        "value in another lexical form", "xsi:* attributes other than xsi:type are not in the universe"]
     ctx.extra["declaration_sets"] = len(jobs)
 
 
